@@ -82,4 +82,20 @@ PROPS = {
             "printed order is compared only when the set of all values prints as a brace-enclosed member list (not as string/array/dict/relation sugar)",
         ],
     },
+    "C05": {
+        "level": "exploration",
+        "technique": "property-based testing (rapid): generated keyed collections in every representation, arguments of every class, model-backed transformers; results compared with the exactly-one/shift/map reference model",
+        "level_text": "Generated-input search: sets of (@, x) pairs as strings, byte arrays, arrays (offsets, holes), dictionaries (multi-valued keys), "
+                      "{|@,@foo|} relations, mixed unions and hand-written tuple sets, through literal and computed construction paths. c(k) and c(k)?:d are "
+                      "compared with the exactly-one rule (0 values: error / fallback; >= 2: error in both forms); >> and >>> with the key-preserving map; "
+                      "++ with union-after-shift-by-count; n\\seq with the shifted set (non-integer n: error or exact). Absence beyond generated sizes is not established.",
+        "level_note": "Trusted: model.CallAll/MapValues/shift, rapid. Where the property lets an operation reject a value it cannot represent (invalid char/byte from >>, "
+                      "offset of a non-sequence, fractional offset) an ordinary error is accepted as well as the exact result; a silently different value never is.",
+        "tests": [{"name": "TestC05", "quick": 2500, "thorough": 25000}],
+        "rule": "operators call, safe call, >>, >>>, ++, offset on generated keyed collections. Non-trivial: collection with offset/holes/duplicate key/mixed buckets, "
+                "or an argument that is absent, non-integer or of the wrong kind. Distinct = distinct program text.",
+        "assumptions": COMMON_ASSUMPTIONS + [
+            "collections contain only two-attribute tuples with an @ attribute (what 'set of (@, x) pairs' means); other sets are C01's domain",
+        ],
+    },
 }
